@@ -34,6 +34,7 @@ func c18(c *Ctx) {
 	equivPackage(c, rule, "eth/rlp", c11Dev["eth/rlp"], map[string]string{})
 	c18R5(c)
 	c18R6(c)
+	bufferOwnershipRule(c, "R7")
 }
 
 // c18R6: decoded slices do not alias earlier chunks.
@@ -419,4 +420,34 @@ func varInitConst(pk *packages.Package, id *ast.Ident) string {
 		}
 	}
 	return ""
+}
+
+// bufferOwnershipRule (C18-R7, C17-R6): byte slices produced by the encoders are backed by a buffer that
+// belongs to that call.
+func bufferOwnershipRule(c *Ctx, id string) {
+	rule := c.R.Rule(id, "buffer ownership: in gemmill/types, gemmill/go-wire and go-merkle every (*bytes.Buffer).Bytes() is taken from a buffer created in the same function (new(bytes.Buffer) / bytes.NewBuffer), never from a pool, a global or a field — SignBytes, BinaryBytes and MakePartSet hand the slice out and callers keep it (LastSignBytes, part sets): a recycled buffer aliases two results", 5)
+	n := 0
+	for _, rel := range []string{"gemmill/types", "gemmill/go-wire", "gemmill/modules/go-merkle"} {
+		for _, fn := range c.P.FuncsOfPkg(rel) {
+			if fn.Blocks == nil {
+				continue
+			}
+			f := c.Fn(fn)
+			for _, ci := range f.CallsTo(cfgx.Named("bytes.(*Buffer).Bytes")) {
+				n++
+				recv := ci.Common().Args[0]
+				own := false
+				switch x := recv.(type) {
+				case *ssa.Alloc:
+					own = true
+				case *ssa.Call:
+					own = cfgxCallee(x) == "bytes.NewBuffer" || cfgxCallee(x) == "bytes.NewBufferString"
+				case *ssa.Parameter:
+					own = true // the caller's buffer: ownership is decided at the caller
+				}
+				c.R.Ob(rule, "Bytes():"+core.Short(core.FuncName(fn)), own, c.Pos(ci), core.FuncName(fn), "buffer is "+shorten(exprOf(recv)))
+			}
+		}
+	}
+	c.R.Ob(rule, "Bytes()-sites", n >= 5, "-", "", fmt.Sprintf("%d", n))
 }
